@@ -32,6 +32,7 @@ import (
 	authtypes "github.com/cosmos/cosmos-sdk/x/auth/types"
 	banktypes "github.com/cosmos/cosmos-sdk/x/bank/types"
 	govtypes "github.com/cosmos/cosmos-sdk/x/gov/types"
+	govv1 "github.com/cosmos/cosmos-sdk/x/gov/types/v1"
 	minttypes "github.com/cosmos/cosmos-sdk/x/mint/types"
 	slashingtypes "github.com/cosmos/cosmos-sdk/x/slashing/types"
 	stakingtypes "github.com/cosmos/cosmos-sdk/x/staking/types"
@@ -84,6 +85,9 @@ type Config struct {
 	StartTime time.Time
 	// NoInflation sets mint inflation to zero so balances are easier to track.
 	NoInflation bool
+	// GovVotingPeriod > 0: x/gov gets this voting period and a 1uband minimum deposit, so that authority
+	// messages can also travel through a real proposal (executed by gov's end blocker, before tss/bandtss)
+	GovVotingPeriod time.Duration
 	HomeDir     string // if empty a temp dir is created (and removed by Close)
 }
 
@@ -333,6 +337,17 @@ func (w *World) buildGenesis() band.GenesisState {
 	var mg minttypes.GenesisState
 	cdc.MustUnmarshalJSON(gs[minttypes.ModuleName], &mg)
 	mg.Params.MintDenom = "uband"
+	if w.Cfg.GovVotingPeriod > 0 {
+		var gg govv1.GenesisState
+		cdc.MustUnmarshalJSON(gs[govtypes.ModuleName], &gg)
+		vp, ev := w.Cfg.GovVotingPeriod, w.Cfg.GovVotingPeriod/2
+		gg.Params.VotingPeriod, gg.Params.ExpeditedVotingPeriod = &vp, &ev
+		md := w.Cfg.GovVotingPeriod * 10
+		gg.Params.MaxDepositPeriod = &md
+		gg.Params.MinDeposit = sdk.NewCoins(sdk.NewInt64Coin("uband", 1))
+		gg.Params.ExpeditedMinDeposit = sdk.NewCoins(sdk.NewInt64Coin("uband", 2))
+		gs[govtypes.ModuleName] = cdc.MustMarshalJSON(&gg)
+	}
 	if w.Cfg.NoInflation {
 		mg.Minter.Inflation = math.LegacyZeroDec()
 		mg.Params.InflationMax = math.LegacyZeroDec()
@@ -403,6 +418,33 @@ func (w *World) AuthorityRolledBack(msgs ...sdk.Msg) (err error) {
 		m.AuthorityRolledBack(msgs...)
 	}
 	return err
+}
+
+// GovSubmit builds the tx that submits a proposal carrying msgs (signer = gov module account) with the minimum
+// deposit; GovVotes builds one YES vote per validator. The proposal id is the next one the chain will assign.
+func (w *World) GovSubmit(proposer *Account, msgs ...sdk.Msg) ([]byte, uint64, error) {
+	m, err := govv1.NewMsgSubmitProposal(msgs, sdk.NewCoins(sdk.NewInt64Coin("uband", 1)), proposer.Addr.String(), "", "authority action", "through a proposal", false)
+	if err != nil {
+		return nil, 0, err
+	}
+	id, err := w.App.GovKeeper.ProposalID.Peek(w.Ctx())
+	if err != nil {
+		return nil, 0, err
+	}
+	return w.SignTx(proposer, m), id, nil
+}
+
+func (w *World) GovVotes(id uint64) [][]byte {
+	var txs [][]byte
+	for _, v := range w.Vals {
+		txs = append(txs, w.SignTx(v, govv1.NewMsgVote(v.Addr, id, govv1.OptionYes, "")))
+	}
+	return txs
+}
+
+// GovProposal reads a proposal (status, voting end time).
+func (w *World) GovProposal(id uint64) (govv1.Proposal, error) {
+	return w.App.GovKeeper.Proposals.Get(w.Ctx(), id)
 }
 
 // SyncSeq re-reads account sequences from committed state.
